@@ -83,7 +83,7 @@ pub open spec fn contains_sem(a: &dyn ValueView, b: &dyn ValueView) -> Option<bo
     let ghost a0 = a;
 //@ ghost before re<<for \w+ in \w+\.values\(\)>>
     let ghost elems_ghost = Ghost(a.elems());
-//@ ghost before re<<return Ok\(\w+\);>>
+//@ ghost after re<<if ValueViewCmp::new\(\w+\) [=!]= ValueViewCmp::new\(\w+\) \{>>
     proof { let k = it.index@ as int; assert(it.seq()[k].vid_of() == elems_ghost@[k]); assert(veq(elems_ghost@[k], b.vid_of())); assert(0 <= k < a0.array_of()->0.len() && veq(a0.array_of()->0[k], b.vid_of())); }
 //@ prologue
     broadcast use axiom_valiter_items;
